@@ -21,7 +21,9 @@ EXPLANATION = (
     "class or an ancestor initialises -- the frozen table plus every attribute whose initial value is "
     "derived from a feature list; removals requested outside _remove_feature dispatch to the most "
     "derived override); R-pool-args (a computed multiprocessing chunk size is clamped to >= 1); R-select-nonempty "
-    "(numpy.select never sees an empty condition list); "
+    "(numpy.select never sees an empty condition list); R-forward-sentinels (inner discretizers get the "
+    "outer str_nan / str_default: otherwise isfinite meets a foreign sentinel string); R-aggregate-fill "
+    "(aggregates reindexed on the modalities state their fill value: no NaN / float in place of a list); "
     "R-no-iter-mutation (no loop iterates a self list that its body "
     "mutates); R-boundaries-sorted-unique-inf (unique leaders); R-definite-assignment "
     "(predicate-sensitive, same-test correlation: no read of a possibly unbound local in the "
@@ -33,7 +35,7 @@ EXPLANATION = (
     "ChainedDiscretizer, which C18 covers)."
 )
 NOT_DECIDED = "absence of every other internal error on all inputs; that the fitted partition covers every training value"
-FLOORS = {"R-remove-complete": 12, "R-no-iter-mutation": 3, "R-boundaries-sorted-unique-inf": 4, "R-definite-assignment": 100, "R-nullable-dev": 6, "R-hooks-exhaustive": 2, "R-quantile-progress": 2, "R-append-absent": 9, "R-pool-args": 1, "R-select-nonempty": 2}
+FLOORS = {"R-remove-complete": 12, "R-no-iter-mutation": 3, "R-boundaries-sorted-unique-inf": 4, "R-definite-assignment": 100, "R-nullable-dev": 6, "R-hooks-exhaustive": 2, "R-quantile-progress": 2, "R-append-absent": 9, "R-pool-args": 1, "R-select-nonempty": 2, "R-forward-sentinels": 8, "R-aggregate-fill": 2}
 
 PER_FEATURE = {
     "features", "qualitative_features", "quantitative_features", "values_orders", "input_dtypes", "labels_per_values",
@@ -397,6 +399,8 @@ def check(ctx):
     rule_remove_complete(ctx)
     rule_remove_dispatch(ctx)
     rule_pool_chunksize(ctx)
+    quant.check_forward_sentinels(ctx, "R-forward-sentinels")
+    carver.check_aggregate_fill(ctx, "R-aggregate-fill")
     quant.check_select_nonempty(ctx, "R-select-nonempty")
     c10.rule_no_iter_mutation(ctx)
     quant.check_boundaries(ctx, "R-boundaries-sorted-unique-inf")
@@ -426,6 +430,8 @@ MUTANTS = [
     M("chunk size computed by floor division", [(F_QUAN, "                    self.quantitative_features,\n                )\n        # storing into the values_orders", "                    self.quantitative_features,\n                    chunksize=len(self.quantitative_features) // self.n_jobs,\n                )\n        # storing into the values_orders")], "R-pool-args"),
     M("D23-reverted: select on an empty condition list", [(F_QUAL, "                if len(values_to_group) > 0:\n                    x_copy[feature] = select(df_to_input, groups_value, default=x_copy[feature])\n", "                x_copy[feature] = select(df_to_input, groups_value, default=x_copy[feature])\n")], "R-select-nonempty", "ChainedDiscretizer.fit"),
     M("transform selects without the emptiness guard", [(F_BASE, "    if len(values_to_group) > 0:\n        df_feature = select(values_to_group, group_labels, default=df_feature)", "    df_feature = select(values_to_group, group_labels, default=df_feature)")], "R-select-nonempty", "transform_quantitative_feature"),
+    M("str_nan not forwarded to the OrdinalDiscretizer that merges rare quantiles", [(F_DISC, "                values_orders=self.values_orders,\n                str_nan=self.str_nan,\n                copy=False,\n                verbose=self.verbose,\n                input_dtypes=self.input_dtypes,", "                values_orders=self.values_orders,\n                copy=False,\n                verbose=self.verbose,\n                input_dtypes=self.input_dtypes,")], "R-forward-sentinels", "OrdinalDiscretizer"),
+    M("continuous aggregate without fill value", [(F_CONT, "yval = yval.reindex(labels_orders[feature], fill_value=[])", "yval = yval.reindex(labels_orders[feature])")], "R-aggregate-fill", "ContinuousCarver"),
     M("recursion keeps the frequent values", [(F_QUAN, "df_feature[(sub_indices == i) & (~in1d(df_feature, frequent_values))], q, len_df, []", "df_feature[(sub_indices == i)], q, len_df, []")], "R-quantile-progress"),
     M("carving loop iterates self.features while removing", [(F_BC, "        all_features = self.features[:]  # (features are being removed from self.features)\n        for n, feature in enumerate(all_features):", "        all_features = self.features  # (features are being removed from self.features)\n        for n, feature in enumerate(self.features):")], "R-no-iter-mutation"),
 ]
